@@ -113,6 +113,62 @@ def run(chk) -> None:
     ret = [r.value for r in ast.walk(rp) if isinstance(r, ast.Return) and r.value is not None]
     chk.ob("C11.R2", "the asyncio adapter appends each tick to the list replay() returns", bool(app) and bool(ret) and ast.unparse(ret[0]) == tgt, m=mb, node=ot, fn=ot, instance="asyncio:on_tick-appends", reason=f"on_tick appends to {tgt}, replay returns {ast.unparse(ret[0]) if ret else None}")
 
+    # ---------------------------------------------------------------- R6 the log replay() pairs with init_state is this run's log
+    from ..astx import facts_at, has_fact
+    qcls = mb.classes.get("AsyncioAdapterQueues")
+    qinit = mb.functions.get("AsyncioAdapterQueues.__init__")
+    rw = mb.functions.get("BasicRuntime.run_workflow")
+    if qcls is None or qinit is None or rw is None:
+        raise AnchorError("C11.R6: AsyncioAdapterQueues.__init__ / BasicRuntime.run_workflow not found")
+    log_attr = tgt.split(".")[-1] if tgt else "ticks"
+    inits = {ast.unparse(s_.targets[0]): s_.value for s_ in ast.walk(qinit) if isinstance(s_, ast.Assign) and len(s_.targets) == 1}
+    inits.update({ast.unparse(s_.target): s_.value for s_ in ast.walk(qinit) if isinstance(s_, ast.AnnAssign) and s_.value is not None})
+    lv = inits.get(f"self.{log_attr}")
+    chk.ob("C11.R6", "a new queues object starts with an empty tick log", lv is not None and ast.unparse(lv) in ("[]", "list()"), m=mb, node=qinit, fn=qinit, instance="log:starts-empty",
+           reason=f"self.{log_attr} initialised to {ast.unparse(lv) if lv is not None else None}")
+    iv = inits.get("self.init_state")
+    chk.ob("C11.R6", "… and records the init_state it was created with", iv is not None and isinstance(iv, ast.Name) and iv.id in [a.arg for a in qinit.args.args], m=mb, node=qinit, fn=qinit, instance="log:init-recorded",
+           reason=f"self.init_state = {ast.unparse(iv) if iv is not None else None}")
+    # who else writes the log or the recorded init_state
+    writers = []
+    for qn, f in mb.functions.items():
+        if qn in ("AsyncioAdapterQueues.__init__",):
+            continue
+        for x in ast.walk(f):
+            if isinstance(x, ast.Attribute) and x.attr in (log_attr, "init_state") and isinstance(x.ctx, (ast.Store, ast.Del)):
+                writers.append((qn, x))
+            if isinstance(x, ast.Call) and isinstance(x.func, ast.Attribute) and x.func.attr in MUTATORS and isinstance(x.func.value, ast.Attribute) and x.func.value.attr == log_attr and not (qn == "InternalAsyncioAdapter.on_tick" and x.func.attr == "append"):
+                writers.append((qn, x))
+    chk.ob("C11.R6", "nothing but on_tick's append changes the recorded log / init_state", not writers, m=mb, node=writers[0][1] if writers else qcls, instance="log:single-writer",
+           reason=f"also written in {[q for q, _ in writers]}")
+    # run_workflow: the queues of the run are new (never the object of an earlier run with the same id)
+    cfr = CFG(rw)
+    rid, ist = param(rw, 1), param(rw, 3)
+    gets = [c for c in ast.walk(rw) if isinstance(c, ast.Call) and (last(call_name(c)) or "") in ("_get_or_create_queues", "AsyncioAdapterQueues")]
+    chk.floor("C11.R6", "queues acquisition sites in BasicRuntime.run_workflow", len(gets), 1)
+    for c in gets:
+        if last(call_name(c)) == "AsyncioAdapterQueues":
+            fresh = True
+            a_init = kwarg(c, "init_state", 1)
+        else:
+            helper = mb.functions.get("BasicRuntime._get_or_create_queues")
+            if helper is None:
+                raise AnchorError("C11.R6: BasicRuntime._get_or_create_queues not found")
+            stores = [x for x in ast.walk(helper) if isinstance(x, ast.Subscript) and isinstance(x.ctx, ast.Store)]
+            container = ast.unparse(stores[0].value) if stores else "self._queues"
+            fresh = False
+            for n in cfr.nodes_of(enclosing_stmt(c)):
+                f = facts_at(cfr, n, expand_locals=True)
+                fresh = has_fact(f, f"{rid} in {container}", False) or has_fact(f, f"{container}.get({rid}) is None", True)
+            a_init = kwarg(c, "init_state", 1)
+        chk.ob("C11.R6", "a run gets queues of its own: run_workflow refuses a run id that still has queues, so the helper can only create", fresh, m=mb, node=c, fn=rw, instance="log:fresh-per-run",
+               reason="the queues of an earlier run with the same id (its init_state and its recorded ticks) can be reused: replay() = old init_state + old ticks + new ticks, not the live state")
+        chk.ob("C11.R6", "the queues record the init_state the run starts from", a_init is not None and ast.unparse(a_init) == ist, m=mb, node=c, fn=rw, instance="log:same-init-recorded", reason=f"init_state argument is {ast.unparse(a_init) if a_init is not None else None}")
+    runs = [c for c in ast.walk(rw) if isinstance(c, ast.Call) and (call_name(c) or "").endswith("workflow_run_fn")]
+    chk.floor("C11.R6", "workflow_run_fn calls in run_workflow", len(runs), 1)
+    for c in runs:
+        chk.ob("C11.R6", "the control loop is started from the same init_state the queues recorded", bool(c.args) and ast.unparse(c.args[0]) == ist, m=mb, node=c, fn=rw, instance="log:same-init-run", reason=f"workflow_run_fn({ast.unparse(c.args[0]) if c.args else ''})")
+
     # ---------------------------------------------------------------- R3 decorators forward the whole interface
     for iface, deco in (("InternalRunAdapter", "BaseInternalRunAdapterDecorator"), ("ExternalRunAdapter", "BaseExternalRunAdapterDecorator")):
         im = repo.methods(f"{PLUG}:{iface}")
@@ -217,6 +273,10 @@ def run(chk) -> None:
 
 
 TWINS = [
+    Twin("finished run id reusable", BASIC_REL, "        if run_id in self._queues:\n            # not supported", "        previous = self._queues.get(run_id)\n        if previous is not None and not previous.complete.done():\n            # not supported", "C11.R6"),
+    Twin("log not fresh", BASIC_REL, "        self.ticks: list[WorkflowTick] = []", "        self.ticks: list[WorkflowTick] = _SHARED_TICKS", "C11.R6"),
+    Twin("loop started from another state", BASIC_REL, "                return await registered.workflow_run_fn(\n                    init_state, start_event, captured_tags", "                return await registered.workflow_run_fn(\n                    init_state.deepcopy(), start_event, captured_tags", "C11.R6"),
+    Twin("benign: guard via get", BASIC_REL, "        if run_id in self._queues:\n            # not supported", "        if self._queues.get(run_id) is not None:\n            # not supported", None),
     Twin("state patched outside reducer", CL_REL, "                completed_task = result.completed\n", "                completed_task = result.completed\n                self.state.is_running = True\n", "C11.R1"),
     Twin("state from a copy", CL_REL, "        self.state, commands = rewind_in_progress(self.state, start)", "        self.state, commands = rewind_in_progress(self.state, start)\n        self.state = self.state.deepcopy()", "C11.R1"),
     Twin("commands before record", CL_REL, "        await self.adapter.on_tick(tick)\n\n        for command in commands:", "        for command in commands[:1]:\n            await self.process_command(command)\n        await self.adapter.on_tick(tick)\n\n        for command in commands[1:]:", "C11.R2"),
